@@ -37,6 +37,11 @@ static Json::Value gen() {
     sc["scripts"]["hooks"]["h0"]["polls"] = polls;
     sc["meta"]["hook"] = true;
   }
+  // victims whose memory.pressure cannot be read (PSI off, file gone): the kill record carries zeros then,
+  // it is written all the same
+  if (P(35))
+    for (auto& cg : sc["world"]["cgs"])
+      if (!cg["path"].asString().empty() && P(25)) cg["faults"]["memory.pressure"] = oneOf(std::vector<std::string>{"absent", "unreadable", "empty"});
   // repeated kills: short ruleset delays; pre-existing counters; silence-logs
   for (auto& rs : sc["config"]["rulesets"]) {
     if (P(70)) rs["post_action_delay"] = "0";
